@@ -41,14 +41,14 @@ type schedCase struct {
 // schedThemes: requests that meet on one entry; a case draws most of its
 // requests from one theme.
 var schedThemes = map[string][]string{
-	"f":      {"walk-f", "walk-D-f", "clone-2", "open-2", "getattr-2", "getattr-2", "setattr-2", "xattrwalk-2", "unlink-f", "unlink-f2", "ren-f-f2", "ren-g-f", "ren-f-E", "trename-2", "remove-2", "create-D", "link-D", "clunk-2"},
+	"f":      {"walk-f", "walk-D-f", "clone-2", "open-2", "getattr-2", "getattr-2", "setattr-2", "setattr-mtime-2", "setattr-times-2", "setattr-size-2", "xattrwalk-2", "unlink-f", "unlink-f2", "ren-f-f2", "ren-g-f", "ren-f-E", "trename-2", "remove-2", "create-D", "link-D", "clunk-2"},
 	"k":      {"walk-sub-k", "walk-D-sub-k", "walk-3-k", "clone-4", "open-4", "getattr-4", "setattr-4", "unlink-k", "ren-k-D", "trename-4", "remove-4", "ren-sub-E", "ren-sub-sub3", "setattr-3", "create-sub", "mkdir-sub", "clunk-3", "clone-3"},
 	"e":      {"walk-D-e", "walk-D-e-x", "walk-D-e-x", "unlink-e", "remove-8", "mkdir-e", "ren-e-E", "getattr-8", "clone-8", "setattr-8"},
 	"fnew":   {"remove-2", "unlink-f", "create-f", "create-f", "ren-g-f", "walk-f", "open-2", "ren-f-f2", "mkdir-f"},
 	"knew":   {"remove-4", "unlink-k", "create-k", "create-k", "walk-3-k", "ren-k-D", "open-4", "ren-sub-E"},
 	"create": {"hangup", "create-D", "create-D", "create-sub", "create-sub", "ren-new-new2", "ren-new-E", "ren-subnew-D", "ren-sub-E", "ren-D-E", "unlink-new", "walk-new", "ren-sub-sub3"},
-	"io":     {"read-10", "write-10", "fsync-10", "setattr-2", "unlink-f", "ren-g-f", "readdir-9", "create-D", "mkdir-D", "unlink-g", "getattr-2", "clunk-10", "remove-2", "hangup", "hangup"},
-	"dir":    {"create-D", "mkdir-D", "symlink-D", "unlink-g", "unlink-s", "readlink-7", "walk-f", "ren-g-f", "ren-f-f2", "link-D", "setattr-D", "getattr-D"},
+	"io":     {"read-10", "write-10", "fsync-10", "setattr-2", "setattr-mtime-2", "setattr-size-2", "unlink-f", "ren-g-f", "readdir-9", "create-D", "mkdir-D", "unlink-g", "getattr-2", "clunk-10", "remove-2", "hangup", "hangup"},
+	"dir":    {"create-D", "mkdir-D", "symlink-D", "unlink-g", "unlink-s", "readlink-7", "walk-f", "ren-g-f", "ren-f-f2", "link-D", "setattr-D", "setattr-mtime-D", "getattr-D"},
 }
 
 var schedAlphabet = []string{
@@ -56,7 +56,7 @@ var schedAlphabet = []string{
 	"open-2", "open-4", "getattr-2", "getattr-4", "setattr-2", "setattr-3", "setattr-4", "readlink-7", "xattrwalk-2",
 	"unlink-f", "unlink-g", "unlink-k", "unlink-e", "unlink-s", "ren-f-f2", "ren-g-f", "ren-sub-E", "ren-f-E", "ren-k-D", "ren-sub-sub3",
 	"trename-2", "trename-4", "remove-2", "remove-8", "remove-4", "create-D", "create-sub", "mkdir-D", "mkdir-sub", "symlink-D", "link-D", "clunk-2", "clunk-3",
-	"readdir-9", "read-10", "write-10", "fsync-10", "clunk-10", "hangup",
+	"readdir-9", "read-10", "write-10", "fsync-10", "clunk-10", "hangup", "setattr-mtime-2", "setattr-times-2", "setattr-size-2", "setattr-mtime-D",
 	"create-f", "create-k", "mkdir-f", "ren-new-new2", "ren-new-E", "ren-subnew-D", "unlink-new", "walk-new", "ren-D-E",
 	"unlink-f2", "walk-D-e-x", "mkdir-e", "ren-e-E", "getattr-8", "clone-8", "setattr-8", "setattr-D", "getattr-D",
 }
@@ -91,6 +91,14 @@ func schedMsg(kind string) *refcodec.Msg {
 		return tGetattr(4)
 	case "setattr-2":
 		return tSetattr(2, 1, 0o600, 0)
+	case "setattr-mtime-2":
+		return tSetattr(2, 0x20, 0, 0)
+	case "setattr-times-2":
+		return tSetattr(2, 0x1b0, 0, 0)
+	case "setattr-size-2":
+		return tSetattr(2, 8, 0, 3)
+	case "setattr-mtime-D":
+		return tSetattr(1, 0x20, 0, 0)
 	case "setattr-3":
 		return tSetattr(3, 1, 0o700, 0)
 	case "setattr-4":
